@@ -43,6 +43,14 @@ class SBytes:
     def rstrip(self, *a): raise EngineError('rstrip of symbolic bytes')
     def hex(self): raise EngineError('hex of symbolic bytes')
 
+class SByteArr(SBytes):
+    """bytearray(<symbolic data>): read-only model (concatenation, slicing, iteration, comparison); any in-place change is
+    refused, so code that mutates it is reported as undecided rather than mis-modelled"""
+    __slots__ = ()
+    def _ro(self, *a, **k): raise EngineError('in-place change of a bytearray with symbolic content')
+    __setitem__ = __delitem__ = __iadd__ = __imul__ = append = extend = insert = pop = remove = reverse = clear = _ro
+    def __hash__(self): return id(self)
+
 class SBytesT(SBytes):
     """known leading bytes followed by an ABSTRACT tail: a message of arbitrary length and content, identified by a
     symbolic token.  It can be prefixed and passed on; every operation that would look inside it (length, iteration,
